@@ -49,8 +49,8 @@ static Pair gen_pair(ByteSource& in, CaseInfo& ci, size_t cap = 0) {
       size_t qn = std::max<size_t>(1, in.flag() ? n / 7 + (size_t)in.range(0, 3) : (size_t)in.range(1, std::max<size_t>(1, n / 2))); size_t an = n > qn + 2 ? n - qn : 3;
       Int low = gen_int(in, std::max<size_t>(1, an / 2), false), low2 = gen_int(in, std::max<size_t>(1, an / 2), false); Int a = ref::pow2(64 * (an - 1)) + low, r = ref::pow2(64 * (an - 1)) - Int(1) - low2; if (r.neg) r = Int(1);
       Limbs qv = limbs_nz(in, qn); Int q = Int::from_limbs(qv.data(), qn); Int b = q * a + r; bool gk8 = false; Int e8;
-      if (an >= 6 && in.flag()) {   // the same shape with a huge common factor e (so that the remainder sequence ends at once): a = e*(y+1), r = e*y, y = floor((B^(an-1) - 1)/e) a few limbs long
-        size_t en = an - 1 - (size_t)in.range(1, std::min<size_t>(4, an - 3)); Limbs ev = limbs_nz(in, en); ev[0] |= 1; ev[en - 1] |= 1ull << 63; e8 = Int::from_limbs(ev.data(), en);
+      if (an >= 10 && in.flag()) {   // the same shape with a huge common factor e (so that the remainder sequence ends at once): a = e*(y+1), r = e*y, y = floor((B^(an-1) - 1)/e) a few limbs long
+        size_t en = an - 1 - (in.flag() ? (size_t)in.range(1, std::min<size_t>(4, an - 3)) : (size_t)in.range(1, std::max<size_t>(1, std::min<size_t>(an / 6 + 1, an - 3)))); if (en < 2 || en > an - 2) en = an - 2; /* y = (an-1-en) limbs: a few, or up to a sixth of the operand */ Limbs ev = limbs_nz(in, en); ev[0] |= 1; ev[en - 1] |= 1ull << 63; e8 = Int::from_limbs(ev.data(), en);
         Int y = ref::tdiv(ref::pow2(64 * (an - 1)) - Int(1), e8); if (y.is_odd()) y = y - Int(1); if (y.sgn() > 0) { r = e8 * y; a = r + e8; q.m[0] |= 1; b = q * a + r; gk8 = true; ci.label("big_quotient_then_short_remainder:huge_gcd"); } }
       if (in.flag()) { p.a = ref::shl(b, 64 * (size_t)in.range(1, 3)) + a; p.b = b; } else { p.a = b; p.b = a; }
       if (gk8) p.g = e8; else if (std::max(p.a.size(), p.b.size()) <= 260) p.g = ref::gcd(p.a, p.b); else p.g_known = false; if (in.flag()) std::swap(p.a, p.b); ci.label("big_quotient_then_short_remainder"); break; }
